@@ -12,8 +12,12 @@ comparison finds on them is new.
 
 Guard, per function variant (= per call signature; the all-int signature of the def-time parse included):
   * every name is declared by its first assignment in text order with kind K, later assignments have kind <= K
-    (str: equal); names first assigned inside a nested block keep ONE kind; parameters are only re-assigned at
-    the kind of the signature (finding F-C02-param-declared-from-last-label);
+    (str: equal); names first assigned inside a nested block keep ONE kind; a parameter is declared from the label it
+    has at the END of the body (finding F-C02-param-declared-from-last-label), so it may only be re-assigned at its
+    current kind or - directly at body level - at a WIDER numeric kind (`a = a + b`: the variant requested as
+    (int, float) is then emitted as (float, float) and reached through the signature alias); it is never narrowed;
+  * all requested signatures of one helper that end on the same final signature type every local and the result
+    alike (finding F-C02-widened-variant-overwritten: they share ONE emitted function, the body parsed last wins);
   * a name is read only where it is definitely assigned (CPython would raise otherwise) and its current label
     equals its declared kind (finding F-C02-flow-insensitive-label);
   * expressions: + - * on numeric operands, `/` only by a float literal, comparisons, not, and/or on bools,
@@ -76,6 +80,9 @@ class Checker:
         self.globals = set(global_names)
         self.ret_sets = {}            # (fname, sig) -> list of return kinds
         self.local_kinds = {}         # (fname, sig) -> local name -> declared kind
+        self.final_sig = {}           # (fname, requested sig) -> signature the variant is emitted with (widened parameters)
+        self.call_log = set()         # (fname, sig) of every helper call met inside a helper body
+        self._argchecks = None        # (name, label) of Name arguments of helper calls inside the variant being checked
 
     # ---- expressions
     def kind(self, node, env, caller=None):
@@ -147,6 +154,10 @@ class Checker:
                     lit = isinstance(a, ast.Constant) and isinstance(a.value, (bool, int)) and not isinstance(a.value, float)
                     if not (isinstance(a, ast.Name) or lit):
                         raise OutOfGuard("call argument shape")
+                if caller is not None:
+                    self.call_log.add((f, tuple(ks)))
+                    if self._argchecks is not None:
+                        self._argchecks += [(a.id, kk) for a, kk in zip(node.args, ks) if isinstance(a, ast.Name)]
                 return self.variant(f, tuple(ks))
             raise OutOfGuard("call " + f)
         raise OutOfGuard(type(node).__name__)
@@ -168,12 +179,21 @@ class Checker:
             for p in params:
                 if p in self.globals:
                     raise OutOfGuard("parameter shadows a global")
-            self.block(body, st, False)
+            saved_checks, self._argchecks = self._argchecks, []
+            try:
+                self.block(body, st, False)
+                mine = self._argchecks
+            finally:
+                self._argchecks = saved_checks
+            for n_, lab in mine:                             # the C++ argument type is the declared type: it must be the label
+                if st["decl"].get(n_) != lab:
+                    raise OutOfGuard("helper argument whose label differs from its declared type")
             if not always_returns(body):
                 raise OutOfGuard("falls off the end")
             r = ret_join(st["rets"])
             self.ret_sets[key] = list(st["rets"])
             self.local_kinds[key] = {n: k for n, k in st["decl"].items() if n not in st["params"]}
+            self.final_sig[key] = tuple(st["decl"][p] for p in params)
         except OutOfGuard as e:
             self.memo[key] = e
             raise
@@ -182,6 +202,16 @@ class Checker:
 
     def env(self, st):
         return {n: st["decl"][n] for n in st["assigned"] & st["label_ok"]}
+
+    def overwritten_variants(self):
+        """requested signatures of one helper that end on the same final signature but type a local or the result
+        differently (the emitted function is the one parsed last: finding F-C02-widened-variant-overwritten)"""
+        groups = {}
+        for (f, sg), r in self.memo.items():
+            if isinstance(r, OutOfGuard):
+                continue
+            groups.setdefault((f, self.final_sig[(f, sg)]), set()).add((r, tuple(sorted(self.local_kinds[(f, sg)].items()))))
+        return [k for k, v in groups.items() if len(v) > 1]
 
     @staticmethod
     def child(st):
@@ -201,7 +231,9 @@ class Checker:
                 st["nested"].add(x)
         else:
             K = st["decl"][x]
-            if K == "str" or k == "str" or x in st["nested"] or x in st["params"]:
+            if x in st["params"] and not nested and K in NUM and k in NUM and KORD[k] > KORD[K]:
+                st["decl"][x] = k                  # widened at body level: the parameter is declared from this (final) label
+            elif K == "str" or k == "str" or x in st["nested"] or x in st["params"]:
                 if k != K:
                     raise OutOfGuard(f"{x}: {k} into {K}")
             elif KORD[k] > KORD[K]:
@@ -226,6 +258,16 @@ class Checker:
                 if "rets" not in st or s[1] is None:
                     raise OutOfGuard("return")
                 st["rets"].append(self.kind(s[1], self.env(st), st.get("fn")))
+            elif t == "comp":                                 # ("comp", L, target, elt, n):  L = [elt for target in range(n)]
+                L, tgt, elt = s[1], s[2], s[3]
+                if L in st["decl"] or (L in self.globals and st.get("fn")):
+                    raise OutOfGuard("list name re-used")
+                e2 = dict(self.env(st))
+                e2[tgt] = "int"                                # the target shadows whatever the name meant outside
+                k = self.kind(elt, e2, st.get("fn"))
+                if k == "str":
+                    raise OutOfGuard("list of str")
+                st["decl"][L] = "list[" + k + "]"              # never readable by an expression of the generator
             elif t == "if":
                 kids = []
                 for c, b in s[1]:
@@ -267,10 +309,34 @@ class Checker:
                 raise OutOfGuard(t)
 
 
+def cxx_rank(arg, par):
+    """rank of the implicit conversion of a C++ argument of kind arg to a parameter of kind par (None: not viable)"""
+    if arg == par:
+        return 0
+    if "str" in (arg, par):
+        return None
+    if arg == "bool" and par == "int":
+        return 1                                              # integral promotion
+    return 2                                                  # conversion
+
+
+def cxx_pick(args, candidates):
+    """the overload C++ selects for a call with argument kinds args, or None when the call is ambiguous / not viable"""
+    viable = []
+    for c in candidates:
+        if len(c) == len(args):
+            rk = [cxx_rank(a, p) for a, p in zip(args, c)]
+            if None not in rk:
+                viable.append((c, rk))
+    best = [c for c, rk in viable
+            if all(c is d or (all(x <= y for x, y in zip(rk, rd)) and any(x < y for x, y in zip(rk, rd))) for d, rd in viable)]
+    return best[0] if len(best) == 1 else None
+
+
 def assigned_names(stmts):
     out = set()
     for s in stmts:
-        if s[0] in ("assign", "aug"):
+        if s[0] in ("assign", "aug", "comp"):
             out.add(s[1])
         elif s[0] == "if":
             for _, b in s[1]:
@@ -307,6 +373,8 @@ def render_block(stmts, lvl, out):
             out.append(f"{pad}mon.write({s[1]})\n")
         elif t == "return":
             out.append(f"{pad}return {s[1]}\n")
+        elif t == "comp":
+            out.append(f"{pad}{s[1]} = [{s[3]} for {s[2]} in range({s[4]})]\n")
         elif t == "if":
             for i, (c, b) in enumerate(s[1]):
                 out.append(f"{pad}{'if' if i == 0 else 'elif'} {c}:\n")
@@ -358,7 +426,11 @@ class FnGen:
         self.stats = {"functions": 0, "variants": 0, "return_kind_sets": {}, "calls": 0, "regenerated_bodies": 0,
                       "branch_first_locals": 0, "loop_first_locals": 0, "helper_calls_helper": 0, "aug": 0,
                       "top_hoist_before_def": 0, "mixed_conditional_expressions": 0, "if_inside_loop_locals": 0,
-                      "loop_inside_if_locals": 0, "top_loop_hoist": 0, "m2_combination": 0, "shared_local_different_kind": 0}
+                      "loop_inside_if_locals": 0, "top_loop_hoist": 0, "m2_combination": 0, "shared_local_different_kind": 0,
+                      "param_widening_statements": 0, "calls_reaching_their_variant_through_an_alias": 0,
+                      "alias_call_after_a_call_with_the_final_signature": 0, "alias_call_before_a_call_with_the_final_signature": 0,
+                      "rejected_overwritten_variant": 0, "rejected_ambiguous_overload": 0, "comprehensions_in_helpers": 0,
+                      "comprehension_target_shadows_a_name": 0, "helper_accumulators_shadowed": 0}
 
     # ---- polymorphic expressions over names
     def atom(self, names, lits=True):
@@ -415,7 +487,7 @@ class FnGen:
         rng = self.rng
         names = list(params)
         out = []
-        cnt = {"w": 0, "y": 0, "t": 0, "i": 0, "k": 0, "u": 0}
+        cnt = {"w": 0, "y": 0, "t": 0, "i": 0, "k": 0, "u": 0, "c": 0, "L": 0}
         # a variant parsed on demand from inside another helper's body inherits the caller's declared names, and a callee
         # local of the same name is then never declared (the sketch does not compile: C06's subject).  A helper that calls
         # another helper therefore gets local names of its own; all other helpers share y1, t1, w1, ...
@@ -427,6 +499,46 @@ class FnGen:
             return f"{p}{cnt[p]}{suffix}"
 
         for _ in range(rng.choice([1, 2, 2, 3, 4])):
+            if rng.random() < 0.16:                           # a parameter widened at body level, depending on another name
+                p_ = rng.choice(params)
+                others = [n for n in names if n != p_]
+                o_ = rng.choice(others) if others and rng.random() < 0.7 else rng.choice(FLT_LITS + ["2", "1"])
+                shape = rng.random()
+                if shape < 0.45:
+                    out.append(("assign", p_, f"({p_} {rng.choice(['+', '+', '-', '*'])} {o_})"))
+                elif shape < 0.6:
+                    out.append(("assign", p_, f"({o_} + {p_})"))
+                elif shape < 0.85:
+                    out.append(("aug", p_, rng.choice(["+", "-", "*"]), o_))
+                else:
+                    out.append(("assign", p_, f"({p_} * {rng.choice(['0.5', '2.5', '1.0'])})"))
+                self.stats["param_widening_statements"] += 1
+                continue
+            if rng.random() < 0.14:                           # a list comprehension whose target shadows a parameter / local
+                shape = rng.random()
+                if shape < 0.5:                               # accumulator with a (mostly falsy) known constant, updated in a loop only
+                    a = fresh("w")
+                    init = rng.choice(["0.0", "0.0", "0", "1.5"])
+                    step = rng.choice(["0.25", "0.5"] + ([params[0]] if init != "0" else [])) if init != "0" else rng.choice(["1", "2"])
+                    out.append(("assign", a, init))
+                    out.append(("for", fresh("i"), rng.choice(["2", "3"]), [("assign", a, f"({a} + {step})")]))
+                    tgt = a
+                    self.stats["helper_accumulators_shadowed"] += 1
+                elif shape < 0.85 and names:
+                    tgt = rng.choice(names)
+                else:
+                    tgt = fresh("c")
+                elt = self.expr(1, [n for n in names if n != tgt] + [tgt, tgt])
+                out.append(("comp", fresh("L"), tgt, elt, rng.choice(["2", "3"])))
+                self.stats["comprehensions_in_helpers"] += 1
+                if tgt in names or tgt.startswith("w"):
+                    w = fresh("w")
+                    out.append(("assign", w, rng.choice([f"({tgt} * 3)", f"({tgt} + 1)", tgt])))
+                    if tgt not in names:
+                        names.append(tgt)
+                    names.append(w)
+                    self.stats["comprehension_target_shadows_a_name"] += 1
+                continue
             r = rng.random()
             if r < 0.18:
                 w = fresh("w")
@@ -558,6 +670,9 @@ class FnGen:
             if not sigs:
                 return None
             calls.append((f, ps, sigs))
+        if ck.overwritten_variants():
+            self.stats["rejected_overwritten_variant"] += 1
+            return None
         # every variant the transpiler will parse on the way (callees of callees) is inside the guard by construction of
         # Checker.variant (it recurses); names hoisted by if/else (y*) and by loops (t*) are disjoint by construction
         by_kind = {k: [g[0] for g in gl if g[1] == k] for k in ("int", "float", "bool", "str")}
@@ -584,6 +699,8 @@ class FnGen:
                 for _ in range(rng.choice([1, 2, 2])):
                     seq.append((f, sg))
         rng.shuffle(seq)
+        seen_final = {}
+        used_calls = []
         for f, sg in seq[:rng.choice([5, 6, 8])]:
             args = []
             for kx in sg:
@@ -608,8 +725,31 @@ class FnGen:
                 res_decl[r_] = rk
             call_items.append([("assign", r_, f"{f}({', '.join(args)})"), ("write", r_)])
             self.stats["calls"] += 1
+            used_calls.append((f, sg))
+            fin = ck.final_sig[(f, sg)]
+            if fin != sg:
+                self.stats["calls_reaching_their_variant_through_an_alias"] += 1
+                if (f, fin) in seen_final.get("direct", set()):
+                    self.stats["alias_call_after_a_call_with_the_final_signature"] += 1
+                seen_final.setdefault("alias", set()).add((f, fin))
+            else:
+                if (f, fin) in seen_final.get("alias", set()):
+                    self.stats["alias_call_before_a_call_with_the_final_signature"] += 1
+                seen_final.setdefault("direct", set()).add((f, fin))
         if not call_items:
             return None
+        # every call whose requested signature is widened (reached through the alias) must select, by C++ overload
+        # resolution among the variants that can be emitted, exactly the variant the transpiler means (an ambiguous call
+        # does not compile: C06's subject, not this property's)
+        all_calls = set(used_calls) | set(ck.call_log)
+        emitted = {}
+        for f_, sg_ in all_calls:
+            if (f_, sg_) in ck.final_sig:
+                emitted.setdefault(f_, set()).add(ck.final_sig[(f_, sg_)])
+        for f_, sg_ in all_calls:
+            if (f_, sg_) in ck.final_sig and cxx_pick(sg_, emitted[f_]) != ck.final_sig[(f_, sg_)]:
+                self.stats["rejected_ambiguous_overload"] += 1
+                return None
         # placement of the calls: column 0, inside a top-level branch / loop, inside the main loop
         placed, loop_body = [], []
         declared_top = set()
@@ -684,7 +824,26 @@ def fixed_programs():
     nest = ("def", "h6", ["p"], [("assign", "w1", "h1(p)"), ("return", "w1 + 1")])
     cexp = ("def", "h5", ["p"], [("assign", "w1", "(True if p > 5 else p + 2)"), ("return", "w1")])
     cexp2 = ("def", "h6", ["p"], [("return", "(p * 2 if p > 1 else False)")])
+    # parameters widened by the body depending on another parameter: the requested signature is emitted under a wider
+    # final one and found through the signature alias; call sites in both orders (final first / alias first)
+    blend = ("def", "h1", ["p", "q"], [("assign", "p", "p + q"), ("return", "p")])
+    augw = ("def", "h2", ["p", "q"], [("aug", "p", "+", "q"), ("return", "p * 2")])
+    half = ("def", "h3", ["p"], [("assign", "p", "p * 0.5"), ("return", "p")])
+    early = ("def", "h4", ["p", "q"], [("if", [("q > 1", [("return", "p")])], None), ("assign", "p", "(q + p)"), ("return", "p")])
+    keepw = ("def", "h5", ["p", "q"], [("assign", "w1", "q * 2"), ("assign", "p", "p - q"), ("return", "p + w1")])
+    # list comprehensions whose target re-uses the name of a local accumulator / of a parameter (it does not leak)
+    spread = ("def", "h1", ["p"], [("assign", "w1", "0.0"), ("for", "i1", "3", [("assign", "w1", "w1 + 0.25")]),
+                                   ("comp", "L1", "w1", "w1 + p", "3"), ("assign", "w2", "w1 * 3"), ("return", "w2")])
+    shadp = ("def", "h2", ["p", "q"], [("comp", "L1", "p", "p * q", "2"), ("assign", "w1", "p * 2"), ("return", "w1")])
+    count = ("def", "h3", ["p"], [("assign", "w1", "0"), ("for", "i1", "2", [("assign", "w1", "w1 + 2")]),
+                                  ("comp", "L1", "w1", "w1 * 0.5", "2"), ("return", "w1 + p")])
     progs = [
+        (G + [spread, shadp, count]
+         + calls(["h1(n1)", "h1(x1)", "h2(x1, n1)", "h2(n1, x2)", "h2(b1, n1)", "h3(n1)", "h3(x2)"]), 0),
+        (G + [blend, augw, half, early, keepw]
+         + calls(["h1(x1, x2)", "h1(n1, x2)", "h1(n4, x1)", "h1(b1, x3)", "h2(n1, x1)", "h2(x1, x2)", "h2(n2, x3)", "h2(x3, x1)",
+                  "h3(n1)", "h3(x1)", "h3(b1)", "h3(n3)", "h4(x2, x1)", "h4(n1, x1)", "h4(x3, x3)", "h4(n2, x3)",
+                  "h5(x1, x2)", "h5(n1, x2)", "h5(n2, x4)"]), 0),
         (G + [deb, ratio, mixif, cmpf, cexp, cexp2]
          + calls(["h1(n1, n2)", "h1(n3, n2)", "h1(n2, n1)", "h1(r1, n2)", "h2(n1, n2)", "h2(n1, 0)", "h3(n1)", "h3(n2)", "h4(n1)", "h4(n2)",
                   "h4(n4)", "h4(x3)", "h4(x1)", "h5(n1)", "h5(n2)", "h5(x1)", "h6(n1)", "h6(n4)", "h6(x1)", "h6(x2)"]), 0),
